@@ -116,8 +116,9 @@ def check(case, res):
     res.label("positioned-region")
   if spec["body"] is None:
     res.label("no-body")
+  lcd = LCDDocFilter(config)
   try:
-    LCDDocFilter(config).process(doc)
+    lcd.process(doc)
   except Exception as e:  # pylint: disable=broad-except
     feature = "positioned-region:" if positioned else "no-body:" if spec["body"] is None else ""
     res.crash(e, "filter:" + feature)
@@ -186,8 +187,11 @@ def check(case, res):
     res.label("regions-merged")
   # idempotence
   fp1 = canon.fingerprint(doc)
+  # (half of the documents get the second application from the filter object that made the first one, the others from a new one)
+  same = len(nodes) % 2 == 0
+  res.label("second-application:" + ("same-filter-object" if same else "new-filter-object"))
   try:
-    LCDDocFilter(config).process(doc)
+    (lcd if same else LCDDocFilter(config)).process(doc)
     if canon.fingerprint(doc) != fp1:
       res.fail("not-idempotent", "second application changes the document")
   except Exception as e:  # pylint: disable=broad-except
